@@ -1,11 +1,11 @@
 SPECIFICATION Spec
 CONSTANTS
-  Roots = {"a", "b", "c", "d"}
+  Roots = {"a", "b"}
   MaxExprs = 1
   MaxLate = 0
-  Space = "plain"
+  Space = "errs"
   Canonical = FALSE
   Deviations = {}
 INVARIANTS  TypeOK RunReturns PhaseBarrier DepOrder SetOrder CycleReported NoFinalizeAfterError AllPhasesForAll CompleteBeforeError ErrorsTogether OkMeansNoErrors LateRootsRun
-
+PROPERTY Terminates
 CHECK_DEADLOCK FALSE
